@@ -7,9 +7,13 @@ mod c18;
 mod dec;
 mod lab;
 mod c05;
+mod c06;
 mod c07;
 mod c08;
+mod c09;
 mod c10;
+mod c11;
+mod feedutil;
 mod monitor;
 mod c12;
 mod c13;
@@ -30,9 +34,15 @@ fn main() {
         "c17" => c17::run(&args),
         "c18" => c18::run(&args),
         "c05" => c05::run(&args),
+        "c06" => c06::run(&args),
+        "c06lab" => c06::lab(&args),
+        "c06scan" => c06::scan(&args),
+        "c06st" => c06::selftest(&args),
         "c07" => c07::run(&args),
         "c08" => c08::run(&args),
+        "c09" => c09::run(&args),
         "c10" => c10::run(&args),
+        "c11" => c11::run(&args),
         "c12" => c12::run(&args),
         "c13" => c13::run(&args),
         "c14" => c14::run(&args),
